@@ -115,6 +115,41 @@ def _run_case(case, st):
             g = {r.path: {f: getattr(r, f) for f in FIELDS} for r in got[1]}
             if g != grouped or len(got[1]) != len(grouped):
                 bad.append(("memory_maps:grouped", "got %r expected %r" % (g, grouped)))
+        # the same questions asked several times inside ONE oneshot() block get the same answers
+        def in_block():
+            with pr.oneshot():
+                a = pr.memory_maps(grouped=False)
+                b = pr.memory_maps(grouped=False)
+                c = pr.memory_maps(grouped=True)
+                d = pr.memory_full_info()
+                e = pr.memory_maps(grouped=True)
+            return a, b, c, d, e
+        got = outcome(in_block)
+        if got[0] != "ok":
+            bad.append(("in-oneshot-block-raised:%s" % got[1], "repeated memory_maps()/memory_full_info() inside one block: %r" % (got,)))
+        else:
+            a, b, c, d, e = got[1]
+            ga = [dict(addr=r.addr, perms=r.perms, path=r.path, **{f: getattr(r, f) for f in FIELDS}) for r in a]
+            gb = [dict(addr=r.addr, perms=r.perms, path=r.path, **{f: getattr(r, f) for f in FIELDS}) for r in b]
+            gc_ = {r.path: {f: getattr(r, f) for f in FIELDS} for r in c}
+            ge = {r.path: {f: getattr(r, f) for f in FIELDS} for r in e}
+            if ga != rows or gb != rows or gc_ != grouped or ge != grouped or (d.uss, d.pss, d.swap) != (uss, pss, swap):
+                bad.append(("in-oneshot-block:repeated-calls-differ", "inside one block: ungrouped %r / %r, grouped %r / %r, full %r; expected %r / %r / %r"
+                            % (ga == rows, gb == rows, gc_ == grouped, ge == grouped, (d.uss, d.pss, d.swap), rows, grouped, (uss, pss, swap))))
+        return bad
+    if k == "percent-seq":
+        # the total that memory_percent() divides by is the one of the LATEST virtual_memory() reading
+        p.maps = [mk_mapping(0, b"/lib/a.so", 3, ("Private_Hugetlb",))]
+        name, totals = case[1], case[2]
+        for t in totals:
+            w.set_file("/proc/meminfo", b"MemTotal: %d kB\nMemFree: 1 kB\nMemAvailable: 1 kB\nBuffers: 0 kB\nCached: 0 kB\nActive: 0 kB\nInactive: 0 kB\nShmem: 0 kB\n" % t)
+            vm = outcome(psutil.virtual_memory)
+            got = outcome(pr.memory_percent, name)
+            val = dict(rss=212 * PAGESIZE, vms=211 * PAGESIZE, data=216 * PAGESIZE)[name]
+            exp = val / float(t * 1024) * 100
+            if vm[0] != "ok" or got[0] != "ok" or abs(got[1] - exp) > 1e-9 * max(1, abs(exp)):
+                bad.append(("memory_percent:after-total-changed", "MemTotal now %d kB (sequence %r): memory_percent(%r) -> %r expected %r"
+                            % (t, totals, name, got, exp)))
         return bad
     if k == "percent":
         p.maps = [mk_mapping(0, b"/lib/a.so", 3, ("Private_Hugetlb",)), mk_mapping(1, b"", 5, ("Private_Hugetlb",))]
@@ -177,6 +212,9 @@ def build_cases(thorough):
     for nm in names:
         for total in (16000000, 1, 2 ** 40):
             cases.append(("percent", nm, total))
+    for nm in ("rss", "vms", "data"):
+        for totals in ((8000000, 16000000, 4000000), (1000, 1000, 2000)):
+            cases.append(("percent-seq", nm, totals))
     return cases
 
 
@@ -206,5 +244,7 @@ def replay(ctx, case):
         c = tuple(c)
         if c[0] == "maps":
             c = (c[0], c[1], c[2], tuple(c[3]), c[4])
+        if c[0] == "percent-seq":
+            c = (c[0], c[1], tuple(c[2]))
         bad = guarded(run_case, c, (w, p))
     return {"violated": bool(bad), "viols": bad}
